@@ -33,7 +33,8 @@ RULE = ("Hypothesis-generated C01-style sessions (commands, replies incl. data b
         "schedule) with connectionLost injected at a byte offset of the delivered server stream: random "
         "offsets (driver 'cut') and every offset 0..len(stream) of each generated session (driver 'allcuts', "
         "offsets inside the authentication handshake included); clean/unclean/other reasons; 0..2 "
-        "when_disconnected() requests before and after; the rest of the schedule plus 0..4 further commands "
+        "when_disconnected() requests before and after (optionally the first one told cancels the others that are still "
+        "pending); the rest of the schedule plus 0..4 further commands "
         "are submitted after the loss. Oracle: every command Deferred fired exactly once - C01 model if its "
         "reply was complete before the cut, TorDisconnectError otherwise; queue_command never raises; no "
         "transport write after the loss; every when_disconnected() Deferred fired exactly once. "
@@ -61,17 +62,18 @@ REASONS = {
 
 
 def sessions():
-    return st.builds(lambda c, s, r, pre, pc, pw, rs, wr, lic, lw: {"cmds": c, "sched": s, "reason": r, "pre_wd": pre,
-                                                                    "post_cmds": pc, "post_wd": pw, "resubmit": rs,
-                                                                    "wd_reenter": wr, "lose_in_cb": lic,
-                                                                    "late_watch": lw},
+    return st.builds(lambda c, s, r, pre, pc, pw, rs, wr, lic, lw, wc: {"cmds": c, "sched": s, "reason": r, "pre_wd": pre,
+                                                                        "post_cmds": pc, "post_wd": pw, "resubmit": rs,
+                                                                        "wd_reenter": wr, "lose_in_cb": lic,
+                                                                        "late_watch": lw, "wd_cancel": wc},
                      st.lists(c01.commands(long=False, max_parts=3), min_size=0, max_size=5),
                      c01.schedules(),
                      st.sampled_from(["done", "lost", "other"]),
                      st.integers(0, 2), st.integers(0, 4), st.integers(0, 2),
                      st.sampled_from([0, 0, 1, 2]), st.booleans(),
                      st.one_of(st.none(), st.none(), st.none(), st.integers(0, 4)),
-                     st.sampled_from([False, False, True]))
+                     st.sampled_from([False, False, True]),
+                     st.sampled_from([False, False, False, True]))
 
 
 @st.composite
@@ -116,6 +118,7 @@ class _CutRun(object):
         self.queued_behind_at_cut = 0
         self.cut_inside_reply = False
         self.wd_reentered = False
+        self.wd_cancelled = 0
         self.resubmitted = 0
         self.lost_in_callback = False
         self.effective_cut = None
@@ -135,6 +138,17 @@ class _CutRun(object):
             return
         w = Watch(d)
         self.wd.append(w)
+        if self.case.get("wd_cancel") and len(self.wd) == 1:
+            # a component with several waits that withdraws its other outstanding waits when the first one is
+            # told: Deferred.cancel() from inside a notification (the cancelled request has then been answered -
+            # with CancelledError - and must not be fired again, nor may it disturb anybody else)
+            def withdraw(r):
+                for other in self.wd[1:]:
+                    if other.pending:
+                        self.wd_cancelled += 1
+                        other.d.cancel()
+                return r
+            d.addBoth(withdraw)
         if reenter or (self.case.get("wd_reenter") and len(self.wd) == 1):
             # a disconnect observer that, while being notified, asks again and submits a command
             def inside(_):
@@ -348,6 +362,8 @@ def _classify(res, r, case):
         res.label("resubmit-from-errback-during-loss")
     if r.wd_reentered:
         res.label("request-from-inside-disconnect-notification")
+    if r.wd_cancelled:
+        res.label("pending-request-cancelled-from-inside-a-notification")
     if r.lost_in_callback:
         res.label("loss-reported-from-inside-a-reply-callback")
     if r.late:
